@@ -2101,10 +2101,13 @@ HIstart(void)
     /* Don't call this routine again... */
     library_terminate = TRUE;
 
-    /* Install atexit() library cleanup routine */
-    if (install_atexit == TRUE)
+    /* Install atexit() library cleanup routine, only once even if the
+       library is started again after HPend() */
+    if (install_atexit == TRUE) {
         if (atexit(&HPend) != 0)
             HGOTO_ERROR(DFE_CANTINIT, FAIL);
+        install_atexit = FALSE;
+    }
 
     /* Create the file ID and access ID groups */
     if (HAinit_group(FIDGROUP, 64) == FAIL)
@@ -2187,6 +2190,9 @@ HPend(void)
     HEshutdown();
     HAshutdown();
     tbbt_shutdown();
+
+    /* Everything is released, let the next API call initialize the library again */
+    library_terminate = FALSE;
 } /* end HPend() */
 
 /*--------------------------------------------------------------------------
